@@ -61,6 +61,11 @@ func (u *uploader) uploadReport(fname string) {
 	}
 }
 
+// uploadClient bounds the time spent on one upload: an upload server that
+// accepts a request and never answers must not block the uploader, and the
+// lock it holds for the report's week, forever.
+var uploadClient = &http.Client{Timeout: 2 * time.Minute}
+
 // try to upload the report, 'true' if successful
 func (u *uploader) uploadReportContents(fname string, buf []byte) bool {
 	fdate := strings.TrimSuffix(filepath.Base(fname), ".json")
@@ -96,7 +101,7 @@ func (u *uploader) uploadReportContents(fname string, buf []byte) bool {
 
 	endpoint := u.uploadServerURL + "/" + fdate
 	b := bytes.NewReader(buf)
-	resp, err := http.Post(endpoint, "application/json", b)
+	resp, err := uploadClient.Post(endpoint, "application/json", b)
 	if err != nil {
 		u.logger.Printf("Error upload %s to %s: %v", filepath.Base(fname), endpoint, err)
 		return false
